@@ -14,21 +14,26 @@ GraphLike = Union["ir.Graph", "ir.Function", "ir.GraphView"]
 
 
 def _collect_all_external_values(parent_graph: ir.Graph, graph: ir.Graph) -> set[ir.Value]:
-    """Collects all values in the given graph-like object.
+    """Collects the values used inside the given graph that are defined outside of it.
 
     Args:
-        parent_graph: The parent graph to which collected values must belong.
-        graph: The graph-like object to collect values from.
+        parent_graph: The graph that owns the region being extracted. Values that belong to
+            it are always collected.
+        graph: The (nested) graph to collect values from.
 
     Returns:
-        A set of :class:`~onnx_ir.Value` objects belonging to ``parent_graph``.
+        A set of :class:`~onnx_ir.Value` objects that ``graph`` (or a graph nested in it)
+        captures from an enclosing scope: values of ``parent_graph`` as well as values of
+        graphs further out (for example an initializer of the main graph used two levels down).
     """
     values: set[ir.Value] = set()
-    for node in ir.traversal.RecursiveGraphIterator(graph):
+    inner_graphs: set[ir.Graph] = set()
+    nodes = list(ir.traversal.RecursiveGraphIterator(graph, enter_graph=inner_graphs.add))
+    for node in nodes:
         for val in node.inputs:
             if val is None:
                 continue
-            if val.graph is parent_graph:
+            if val.graph is parent_graph or val.graph not in inner_graphs:
                 values.add(val)
     return values
 
